@@ -639,6 +639,27 @@ CHECKS['C03'].update({
 NOT_YET = {}
 
 
+# ---------------------------------------------------------------- macro twins: one declaration-space job per property
+def _with_twins(pid, jobs_fn):
+    import json, os
+    heads = []
+    for l in open(os.path.join(os.path.dirname(os.path.abspath(__file__)), 'properties.jsonl')):
+        d = json.loads(l)
+        if d['id'] == pid:
+            heads = sorted({os.path.basename(f) for f in d['anchors']['files'] if f.startswith('include/a/') and f.endswith('.h')})
+    if not heads:
+        return jobs_fn
+
+    def jobs(tier):
+        return jobs_fn(tier) + [{'name': 'macro-twins', 'build_name': 'macro-twins', 'script': 'tools/macro_twins.py', 'harness': [], 'args': ['--headers', ','.join(heads), '--tier', tier], 'timeout': 300}]
+    return jobs
+
+
+for _pid in sorted(CHECKS):
+    if _pid != 'C20':
+        CHECKS[_pid]['jobs'] = _with_twins(_pid, CHECKS[_pid]['jobs'])
+
+
 def manifest():
     checks = []
     for pid in sorted(CHECKS):
